@@ -732,3 +732,35 @@ func ruleErrFlow(c *Check, rule string, names ...string) {
 		}
 	}
 }
+
+// fieldReaders finds functions that take the address of / read a struct field.
+func fieldReaders(p *Program, typeName, field string) map[string]bool {
+	out := map[string]bool{}
+	for _, fn := range p.RepoFuncs() {
+		for _, b := range fn.Blocks {
+			for _, in := range b.Instrs {
+				var t types.Type
+				var idx int
+				switch x := in.(type) {
+				case *ssa.FieldAddr:
+					t, idx = x.X.Type(), x.Field
+				case *ssa.Field:
+					t, idx = x.X.Type(), x.Field
+				default:
+					continue
+				}
+				fv := fieldVar(t, idx)
+				if fv == nil || fv.Name() != field {
+					continue
+				}
+				if pt, ok := t.Underlying().(*types.Pointer); ok {
+					t = pt.Elem()
+				}
+				if n, ok := t.(*types.Named); ok && n.Obj().Name() == typeName {
+					out[QualName(fn)] = true
+				}
+			}
+		}
+	}
+	return out
+}
